@@ -322,8 +322,8 @@ func (p *Pool) Run(cases []any, onResult func(i int, out json.RawMessage, crash 
 	defer func() { p.CaseTimeout = saved }()
 	hangs, unretried := 0, 0
 	for _, i := range deferred {
-		if hangs >= 3 {
-			// Three cases have hung with the machine to themselves: the verdict of this run is settled, and every
+		if hangs >= 2 {
+			// Two cases have hung with the machine to themselves: the verdict of this run is settled, and every
 			// further one would cost four times the case limit. The rest is not run again and not judged.
 			unretried++
 			continue
@@ -343,7 +343,7 @@ func (p *Pool) Run(cases []any, onResult func(i int, out json.RawMessage, crash 
 		onResult(i, out, crash, false)
 	}
 	if unretried > 0 {
-		fmt.Printf("NOTE: %d further cases that timed out next to the other workers were not run again (three hangs already confirmed)\n", unretried)
+		fmt.Printf("NOTE: %d further cases that timed out next to the other workers were not run again (two hangs already confirmed)\n", unretried)
 	}
 }
 
